@@ -5,8 +5,9 @@ over a readable MMR view in any prune state, `Segment::root` (stack machine over
 range, optional bitmap), `first_unpruned_parent`, `SegmentProof::{generate, reconstruct_root,
 validate, validate_with}`, and the decision logic of `Desegmenter::validate_complete_state`.
 
-Positions are 0-based (`pos0`) unless the Rust name says otherwise.  Every `unwrap` on `None`
-and every `pop().unwrap()` on an empty vector is an explicit `Res.panic`.
+Positions are 0-based (`pos0`) unless the Rust name says otherwise.  Every `unwrap` on `None` is an explicit `Res.panic` (after the repair `22ca8fd14` of
+`Segment::root` only `bitmap.unwrap()` in `first_unpruned_parent` is left, and it is unreachable:
+`segment_validate_no_panic`).
 Hash function generic (`GV.Pmmr.HashFn`).  Import-free apart from `Model.Pmmr`. -/
 
 namespace GV.Seg
@@ -163,7 +164,9 @@ def rootStep (hf : HashFn α H) (s : Segment α H) (bm : Option (Nat → Bool)) 
           match r with
           | none => .err (.missingHash rightChildPos)
           | some rh => .ok (some (hf.node pos0 lh rh) :: rest, st.2)
-    | _ => .panic   -- `hashes.pop().unwrap()` on an empty vector
+    -- `hashes.pop().ok_or_else(|| MissingHash(..))?` (a panic before the repair `22ca8fd14`)
+    | [] => .err (.missingHash pos0)
+    | [_] => .err (.missingHash (1 + pos0 - 2^h))
 
 /-- the `for pos0 in first..=last` loop -/
 def rootLoop (hf : HashFn α H) (s : Segment α H) (bm : Option (Nat → Bool)) (mmrSize : Nat) :
@@ -201,25 +204,31 @@ def bagPeaks (hf : HashFn α H) (s : Segment α H) (bm : Option (Nat → Bool)) 
       | .err e => .err e
       | .panic => .panic
 
+/-- the end of `Segment::root`, given the stack the loop left: the subtree root of a full
+segment, or the peaks inside the final segment bagged together.  (Since the repair
+`22ca8fd14` an empty stack / no peak in range is `SegmentError::NonExistent`, not a panic.) -/
+def rootFinish (hf : HashFn α H) (s : Segment α H) (bm : Option (Nat → Bool)) (mmrSize : Nat)
+    (stk : List (Option H)) : Res (Option H) :=
+  if s.id.full mmrSize then
+    match stk with
+    | v :: _ => .ok v
+    | [] => .err .nonExistent     -- `hashes.pop().ok_or(SegmentError::NonExistent)`
+  else
+    let r := s.id.posRange mmrSize
+    let pks := ((peaks mmrSize).filter fun p => r.1 ≤ p && p ≤ r.2).reverse
+    match bagPeaks hf s bm mmrSize stk none pks with
+    | .ok (some h) => .ok (some h)
+    | .ok none => .err .nonExistent   -- `hash.ok_or(SegmentError::NonExistent)?`
+    | .err e => .err e
+    | .panic => .panic
+
 namespace Segment
 
 /-- `Segment::root(mmr_size, bitmap)`; `ok none` iff the segment is full and completely pruned -/
 def root (hf : HashFn α H) (s : Segment α H) (mmrSize : Nat) (bm : Option (Nat → Bool)) :
     Res (Option H) :=
-  let r := s.id.posRange mmrSize
   match rootLoop hf s bm mmrSize ([], s.leafPos.zip s.leafData) (s.id.positions mmrSize) with
-  | .ok (stk, _) =>
-    if s.id.full mmrSize then
-      match stk with
-      | v :: _ => .ok v
-      | [] => .panic     -- `hashes.pop().unwrap()`
-    else
-      let pks := ((peaks mmrSize).filter fun p => r.1 ≤ p && p ≤ r.2).reverse
-      match bagPeaks hf s bm mmrSize stk none pks with
-      | .ok (some h) => .ok (some h)
-      | .ok none => .panic   -- `hash.unwrap()`
-      | .err e => .err e
-      | .panic => .panic
+  | .ok st => rootFinish hf s bm mmrSize st.1
   | .err e => .err e
   | .panic => .panic
 
